@@ -12,6 +12,11 @@ RESIZE_STAGES = ["fix_uninit_block_bitmaps", "resize_group_descriptors", "move_b
 
 NS_UW = ["ref_is_power.0:25", "adjust_new_size.0:2", "adjust_new_size.1:2", "adjust_fs_info.0:2", "adjust_fs_info.1:2"]
 
+def gd_uw(ng):
+    return ["main.%d:%d" % (i, ng * 64 + 2) for i in range(12)] + \
+        ["resize_group_descriptors.0:%d" % (ng + 1), "resize_group_descriptors.1:%d" % (ng + 1),
+         "ext2fs_group_desc_csum_set.0:%d" % (ng + 1)]
+
 HARNESSES = [
     dict(name="errflag", src="errflag.c",
          funcs=["resize_fs", "ext2fs_dup_handle"],
@@ -59,6 +64,14 @@ HARNESSES = [
          unwind=4, unwindset=NS_UW + ["test_root.0:9"],
          backends=["default", "kissat"], cap_thorough=1200,
          bound="as newsize, with the real ext2fs_bg_has_super/test_root linked; sizes < 2^24 blocks (<= 2048 groups)"),
+    dict(name="gdconv", src="gdconv.c",
+         funcs=["resize_group_descriptors", "adjust_reserved_gdt_blocks", "ext2fs_block_bitmap_loc", "ext2fs_bg_flags"],
+         extra_src=["lib/ext2fs/blknum.c"],
+         configs=[{"NG": ng, "CONV": d, "FL": 1, "_unwindset": gd_uw(ng)} for ng in (3, 17) for d in (1, 2)] +
+                 [{"NG": 3, "CONV": d, "FL": fl, "_unwindset": gd_uw(3)} for d in (1, 2) for fl in (2, 3, 4, 5)],
+         unwind=4, witness_per_config=True, backends=["default", "kissat"],
+         bound="3 and 17 groups (17: the table grows from 1 to 2 descriptor blocks), 1 KiB blocks; all descriptor bytes, "
+               "size, requested size, flags, reserved GDT count symbolic"),
 ]
 MANIFEST = {
     "text": "Bounded-exhaustive within each harness's stated bounds.",
